@@ -401,7 +401,7 @@ pub fn run(ctx: &Ctx) -> PropertyReport {
     rep.assume("serde_json is built with float_roundtrip so that a parser shortcut of the JSON library cannot masquerade as an rbx_types defect");
     let sub = crate::engine::replay_subcheck_or_all(ctx);
     if sub.runs("codecs") {
-        let cases = ctx.cfg.cases(60_000, 3_000_000);
+        let cases = ctx.cfg.cases(300_000, 5_000_000);
         let mut r = ctx.run_prop(
             "codecs",
             cases,
@@ -414,7 +414,7 @@ pub fn run(ctx: &Ctx) -> PropertyReport {
         rep.push(r);
     }
     if sub.runs("text") {
-        let cases = ctx.cfg.cases(40_000, 1_000_000);
+        let cases = ctx.cfg.cases(200_000, 3_000_000);
         let strat = || {
             prop_oneof![
                 2 => any::<u128>().prop_map(TextCase::Ref),
